@@ -49,6 +49,24 @@ func fitsInt(v *big.Int, k string) bool {
 	return v.Cmp(lo) >= 0 && v.Cmp(hi) <= 0
 }
 
+// lastWins drops every field that a later field of the same (known) name
+// overrides: a Go map has one entry per key, the last one decoded.
+func lastWins(fs []model.Field) []model.Field {
+	var out []model.Field
+	for i, f := range fs {
+		overridden := false
+		for _, g := range fs[i+1:] {
+			if f.Name.Known && g.Name.Known && f.Name.Text == g.Name.Text {
+				overridden = true
+			}
+		}
+		if !overridden {
+			out = append(out, f)
+		}
+	}
+	return out
+}
+
 // ifaceNorm is how a value looks after a trip through interface{}: sexp becomes
 // a list, clob a blob, annotations are dropped.
 func ifaceNorm(v model.Value) model.Value {
@@ -68,7 +86,7 @@ func ifaceNorm(v model.Value) model.Value {
 		out.Elems = append(out.Elems, ifaceNorm(e))
 	}
 	out.Fields = nil
-	for _, f := range v.Fields {
+	for _, f := range lastWins(v.Fields) {
 		out.Fields = append(out.Fields, model.Field{Name: f.Name, Val: ifaceNorm(f.Val)})
 	}
 	return out
@@ -191,7 +209,7 @@ func conv(d drive.TypeDesc, v model.Value) verdict {
 		if v.Kind == model.Struct {
 			out := model.StructV()
 			r := verdict{}
-			for _, f := range v.Fields {
+			for _, f := range lastWins(v.Fields) {
 				fv := conv(*d.Elem, f.Val)
 				if fv.any {
 					return anything
@@ -331,6 +349,70 @@ var c17BadTargets = map[string]func() (target interface{}, mustErr bool){
 	},
 }
 
+// c17celsius is an unexported named non-struct type; embedded, it is not a
+// field Unmarshal may touch.
+type c17celsius float64
+
+type c17celsius2 int
+
+type c17EmbScalar struct {
+	c17celsius
+	*c17celsius2
+	Station string
+	N       int
+}
+
+// runC17EmbScalar: a target embedding unexported non-struct types (by value
+// and by pointer): Ion fields spelled like those types are ignored, the exported
+// fields are filled, nothing panics.
+func runC17EmbScalar(c C17Case) string {
+	st := Stat("C17")
+	data := renderValue(c.Val, c.Binary, nil)
+	st.Eval(true, model.DigestBytes(fmt.Sprintf("c17 embscalar %v %d", c.Binary, c.Via), []byte(c.Val.String())), "cell.embedded-unexported-scalar", "ion."+c.Val.Kind.String())
+	st.Sample(func() string {
+		return fmt.Sprintf("%s into a struct embedding unexported scalar types", c.Val.String())
+	})
+	return drive.Guard2(func() string {
+		var target c17EmbScalar
+		err := ion.Unmarshal(data, &target)
+		if c.Val.Kind != model.Struct || c.Val.IsNull {
+			return ""
+		}
+		wantStation, wantN, judged := "", int64(0), true
+		for _, f := range c.Val.Fields {
+			if !f.Name.Known {
+				continue
+			}
+			switch {
+			case f.Name.Text == "Station":
+				if f.Val.Kind == model.String && !f.Val.IsNull {
+					wantStation = f.Val.Text
+				} else if !f.Val.IsNull {
+					judged = false
+				}
+			case f.Name.Text == "N":
+				if f.Val.Kind == model.Int && !f.Val.IsNull && f.Val.Int.IsInt64() {
+					wantN = f.Val.Int.Int64()
+				} else if !f.Val.IsNull {
+					judged = false
+				}
+			case strings.EqualFold(f.Name.Text, "Station") || strings.EqualFold(f.Name.Text, "N"):
+				judged = false // case-insensitive fallback: undocumented
+			}
+		}
+		if !judged {
+			return ""
+		}
+		if err != nil {
+			return fmt.Sprintf("Unmarshal of %s into a struct embedding unexported scalar types fails: %v", c.Val.String(), err)
+		}
+		if target.Station != wantStation || int64(target.N) != wantN || target.c17celsius != 0 || target.c17celsius2 != nil {
+			return fmt.Sprintf("Unmarshal of %s into a struct embedding unexported scalar types stored %+v", c.Val.String(), target)
+		}
+		return ""
+	})
+}
+
 func runC17Bad(c C17Case) string {
 	st := Stat("C17")
 	data := renderValue(c.Val, c.Binary, nil)
@@ -354,6 +436,9 @@ func runC17Bad(c C17Case) string {
 func runC17(c C17Case) string {
 	if strings.HasPrefix(c.T.K, "bad:") {
 		return runC17Bad(c)
+	}
+	if c.T.K == "special:embscalar" {
+		return runC17EmbScalar(c)
 	}
 	st := Stat("C17")
 	typ := drive.GoType(c.T)
@@ -529,6 +614,10 @@ func c17Exemplars() []model.Value {
 		model.StructV(model.Field{Name: model.S("F"), Val: model.NullOf(model.String)}),
 		model.StructV(model.Field{Name: model.S("P0"), Val: model.Int64V(7)}, model.Field{Name: model.S("P1"), Val: model.StrV("s")}, model.Field{Name: model.S("Q1"), Val: model.Int64V(9)}),
 		model.StructV(model.Field{Name: model.S("P0"), Val: model.Int64V(7)}),
+		// repeated field names: every field is decoded, the last occurrence wins
+		model.StructV(model.Field{Name: model.S("X"), Val: model.Int64V(1)}, model.Field{Name: model.S("X"), Val: model.Int64V(2)}, model.Field{Name: model.S("Y"), Val: model.Int64V(3)}),
+		model.StructV(model.Field{Name: model.S("X"), Val: model.Int64V(1)}, model.Field{Name: model.S("Y"), Val: model.Int64V(2)}, model.Field{Name: model.S("X"), Val: model.Int64V(7)}),
+		model.StructV(model.Field{Name: model.S("F"), Val: model.Int64V(1)}, model.Field{Name: model.S("F"), Val: model.Int64V(5)}, model.Field{Name: model.S("g"), Val: model.StrV("s")}),
 		model.StructV(model.Field{Name: model.S("ID"), Val: model.Int64V(7)}), model.StructV(model.Field{Name: model.S("Id"), Val: model.Int64V(1)}, model.Field{Name: model.S("ID"), Val: model.Int64V(2)}),
 		model.StructV(model.Field{Name: model.S("KEY"), Val: model.StrV("u")}, model.Field{Name: model.S("Key"), Val: model.StrV("m")}), model.StructV(model.Field{Name: model.S("Key"), Val: model.StrV("m")}), model.StructV(model.Field{Name: model.S("F"), Val: model.StructV(model.Field{Name: model.S("F"), Val: one})}))
 	return out
@@ -778,6 +867,16 @@ func TestC17(t *testing.T) {
 			kinds = append(kinds, k)
 		}
 		sort.Strings(kinds)
+		for _, v := range append(c17Exemplars(),
+			model.StructV(model.Field{Name: model.S("c17celsius"), Val: model.FloatV(1.5)}, model.Field{Name: model.S("Station"), Val: model.StrV("x")}, model.Field{Name: model.S("N"), Val: model.Int64V(3)}),
+			model.StructV(model.Field{Name: model.S("C17celsius"), Val: model.FloatV(2.5)}, model.Field{Name: model.S("c17celsius2"), Val: model.Int64V(4)}, model.Field{Name: model.S("Station"), Val: model.StrV("y")}),
+			model.StructV(model.Field{Name: model.S("celsius"), Val: model.Int64V(1)}, model.Field{Name: model.S("N"), Val: model.Int64V(9)})) {
+			for _, c := range []C17Case{{T: drive.TypeDesc{K: "special:embscalar"}, Val: v, Binary: false, Via: 0}, {T: drive.TypeDesc{K: "special:embscalar"}, Val: v, Binary: true, Via: 0}} {
+				if !yield(c) {
+					return
+				}
+			}
+		}
 		for _, k := range kinds {
 			for _, v := range c17Exemplars() {
 				for _, c := range []C17Case{{T: drive.TypeDesc{K: k}, Val: v, Binary: false, Via: 0}, {T: drive.TypeDesc{K: k}, Val: v, Binary: true, Via: 2}} {
